@@ -198,7 +198,9 @@ class snapshot:  # pylint: disable=invalid-name
         # Find a contract checker
         contract_checker = icontract._checkers.find_checker(func=func)
 
-        if contract_checker is None:
+        if contract_checker is None or not getattr(
+            contract_checker, "__postconditions__"
+        ):
             raise ValueError(
                 "You are decorating a function with a snapshot, but no postcondition was defined "
                 "on the function before."
